@@ -90,13 +90,17 @@ callee('m:addSource', args=['source'], modifies=['f:source'], raises='self.sourc
        ensures=['self.source == source', 'forall(lambda w: implies(w != self, w.source == old(w.source)))'])
 callee('m:addSink', args=['sink'], modifies=['el:sinks', 'len:sinks'])
 callee('m:isPrimitive', args=[], returns=True, ensures=['(result != 0) == primitive(self)'])
+_PORT_ENS = ['self.wire == wire and self.parent == parent',
+             'forall(lambda w: implies(w != wire, w.source == old(w.source)))',
+             'implies(primitive(parent), wire.source == self)', 'implies(not primitive(parent), wire.source == old(wire.source))',
+             'forall(lambda o: implies(o != self, o.parent == old(o.parent) and o.wire == old(o.wire)))']
 hfunc(B, 'OutPort.__init__', ['self', 'parent', 'name', 'wire'], props=('C11',), uses=['m:isPrimitive', 'm:addSource'],
       modifies=['f:name', 'f:parent', 'f:wire', 'f:source'],
       # the call that would give an (ordinary) wire a second driver raises -- exactly then -- and leaves the first driver in place
       raises_when='primitive(parent) and wire.source != None', raises_ensures=[_SRC_UNCHANGED],
-      ensures=['self.wire == wire and self.parent == parent',
-               'forall(lambda w: implies(w != wire, w.source == old(w.source)))',
-               'implies(primitive(parent), wire.source == self)', 'implies(not primitive(parent), wire.source == old(wire.source))'])
+      ensures=_PORT_ENS)
+callee('new:OutPort/3', args=['parent', 'name', 'wire'], modifies=['f:name', 'f:parent', 'f:wire', 'f:source'],
+       raises='primitive(parent) and wire.source != None', ensures=_PORT_ENS)
 # an in/out port of a primitive drives its wire too (stated for an ordinary Wire: Wire.addSource = setSource)
 hfunc(B, 'InOutPort.__init__', ['self', 'parent', 'name', 'wire'], props=('C11',), uses=['m:isPrimitive', 'm:addSource', 'm:addSink'],
       modifies=['f:name', 'f:parent', 'f:wire', 'f:source', 'el:sinks', 'len:sinks'],
@@ -357,13 +361,13 @@ hfunc(DBG, 'checkIntegrity', ['obj'], props=('C11',),
 _SORTED_R = 'forall(lambda a, b: implies(0 <= a and a < b and b < len(%s.propagatables), not dep(%s.propagatables[b], %s.propagatables[a])))'
 _COVER_R = 'forall(lambda v: implies(propagatable(v), exists(lambda j: 0 <= j and j < len(%s.propagatables) and %s.propagatables[j] == v)))'
 _UPTODATE = lambda r: [(_SORTED_R % (r, r, r)), (_COVER_R % (r, r))]
-_TS_MOD = ['len:propagatables', 'el:propagatables', 'has:clockDrivers', 'val:clockDrivers', 'el:clockables', 'len:clockables']
+_TS_MOD = ['len:propagatables', 'el:propagatables', 'has:clockDrivers', 'val:clockDrivers', 'el:clockables', 'len:clockables', 'f:driver', 'f:#alloc']
 callee('m:topologicalSort', args=[], modifies=_TS_MOD, ensures=_UPTODATE('self'))
 callee('new:Simulator/1', args=['sys'], requires=['sys.simulator == None'],
-       modifies=_TS_MOD + ['f:total_clks', 'f:sys', 'len:listeners', 'f:value'],
+       modifies=_TS_MOD + ['f:total_clks', 'f:sys', 'len:listeners', 'f:value', 'f:#epoch', 'f:#ok'],
        ensures=_UPTODATE('self') + ['self.sys == sys'])
 hfunc('py4hw/base.py', 'HWSystem.getSimulator', ['self'], props=('C04',), refs=['self'], uses=['new:Simulator/1', 'm:topologicalSort'],
-      modifies=_TS_MOD + ['f:total_clks', 'f:sys', 'len:listeners', 'f:value', 'f:simulator', 'f:#alloc'],
+      modifies=_TS_MOD + ['f:total_clks', 'f:sys', 'len:listeners', 'f:value', 'f:#epoch', 'f:#ok', 'f:simulator'],
       ensures=['result == self.simulator and result != None'] + _UPTODATE('result'))
 
 
@@ -474,3 +478,28 @@ hfunc(SIMF, 'Simulator.topologicalSort', ['self'], props=('C04', 'C05', 'C10'), 
       ensures=[_STRICT('len(self.propagatables)'), _COVER('self.propagatables'),
                # every sequential leaf is registered under the simulator of its nearest clock driver, and nowhere else; the domain lists are duplicate-free
                'forall(lambda v: implies(clockable(v), %s))' % _REG('v'), _R2E, _R3, _R4])
+
+
+# Simulator(sys) for a system that has no simulator yet: the schedule is built and the netlist settled.  (__new__ returns the existing
+# simulator when there is one -- after re-sorting it -- and is outside the model; getSimulator never takes that path.)
+callee('m:propagateAll', args=[], modifies=['f:value', 'f:#epoch', 'f:#ok'])
+hfunc(SIMF, 'Simulator.__init__', ['self', 'sys'], props=('C04',), refs=['self', 'sys'], uses=['m:topologicalSort', 'm:propagateAll'],
+      requires=['sys.simulator == None'],
+      modifies=_TS_MOD + ['f:total_clks', 'f:sys', 'len:listeners', 'f:value', 'f:#epoch', 'f:#ok'],
+      ensures=_UPTODATE('self') + ['self.sys == sys'])
+
+
+# ------------------------------------------------------------------------------------------------- C11: the port-registration invariant
+# REGINV: the driver recorded for a wire is a port registered with its block -- the requires of checkIntegrity (under it checkPort cannot
+# raise).  Logic.addOut keeps it: the port it creates becomes the driver (for a primitive) and is appended to the block's list.
+_REGINV = 'forall(lambda w: implies(w.source != None, %s))' % _REGISTERED('w.source')
+hfunc(B, 'Logic.addOut', ['self', 'name', 'wire'], props=('C11',), refs=['self', 'wire'], uses=['new:OutPort/3'],
+      requires=[_REGINV, 'self.__alloc and wire.__alloc', 'forall(lambda w: implies(w.source != None, w.source.__alloc))',
+                ],
+      modifies=['f:name', 'f:parent', 'f:wire', 'f:source', 'len:outPorts', 'el:outPorts', 'f:#alloc'],
+      raises_when='primitive(self) and wire.source != None',
+      raises_ensures=[_SRC_UNCHANGED],
+      ensures=['result == wire', _REGINV,
+               'len(self.outPorts) == old(len(self.outPorts)) + 1 and self.outPorts[old(len(self.outPorts))].wire == wire and self.outPorts[old(len(self.outPorts))].parent == self',
+               'implies(primitive(self), wire.source == self.outPorts[old(len(self.outPorts))])',
+               'forall(lambda w: implies(w != wire, w.source == old(w.source)))'])
